@@ -594,8 +594,21 @@ func execHistory(mode string, c *hx.Case) (*hx.Result, error) {
 	defer func() {
 		// release the operators of this history and let the finalizers close their files
 		cl.keep, cl.ops, cl.adapters = nil, nil, nil
-		runtime.GC()
-		runtime.GC()
+		// table objects -> clean-up functions (their argument holds the file) -> os.File finalizers: several cycles
+		for i := 0; i < 4; i++ {
+			runtime.GC()
+			time.Sleep(200 * time.Microsecond) // resource release only, nothing observed depends on it
+		}
+		if os.Getenv("RESCALE_FD_DEBUG") != "" {
+			if es, err := os.ReadDir("/proc/self/fd"); err == nil {
+				if f, err := os.OpenFile(os.Getenv("RESCALE_FD_DEBUG"), os.O_APPEND|os.O_CREATE|os.O_WRONLY, 0o644); err == nil {
+					var l syscall.Rlimit
+					syscall.Getrlimit(syscall.RLIMIT_NOFILE, &l)
+					fmt.Fprintf(f, "fds=%d goroutines=%d limit=%d\n", len(es), runtime.NumGoroutine(), l.Cur)
+					f.Close()
+				}
+			}
+		}
 	}()
 	defer cl.quiesce()
 	defer cl.stopAll()
@@ -967,8 +980,10 @@ func (eng) Execute(mode string, c *hx.Case) (*hx.Result, error) {
 }
 
 func main() {
-	// the DKV keeps table and WAL files open until their objects are collected: raise the descriptor limit and
-	// collect after every history (see execHistory)
+	// Descriptors of table files written by a database stay open in this process after the tables are gone (they show
+	// up as "NNNNNN.sst (deleted)"; about 20 per history, not released by garbage collection - reported as an observation
+	// about the implementation in docs/C06.md). Thousands of histories run in one worker process, so the limit is
+	// raised to the hard limit and the thorough tier is sized to stay below it (gen.go).
 	var lim syscall.Rlimit
 	if syscall.Getrlimit(syscall.RLIMIT_NOFILE, &lim) == nil && lim.Cur < lim.Max {
 		lim.Cur = lim.Max
